@@ -203,3 +203,72 @@ def register_view_clears(fn):
         if isinstance(n, ast.Attribute) and n.attr in ('_clear_view_lookup_cache', '_view_lookup_cache'):
             raise Unknown('register_view touches the view lookup cache (line %d)' % n.lineno)
     return False
+
+
+MV_STATE = {'name', 'media_views', 'views', 'accepts'}
+MV_READERS = ('get_views', 'match', '__call__', '__permitted__', '__call_permissive__', '__discriminator__')
+MV_METHODS = {'get_views', 'match', 'add'}
+
+
+def multiview_stateless(cls):
+    """class MultiView: the object cached by the view lookup holds nothing derived from requests -- __init__ creates
+    exactly name/media_views/views/accepts, and the methods that serve a request (get_views, match, __call__, ...)
+    only READ self: no store/delete through self, no attribute of self outside the known state and methods, no method
+    call on a state attribute (e.g. self.memo.get / self.views.sort), self not passed on.  Only add() may write, and
+    only to the known state."""
+    fns = {n.name: n for n in cls.body if isinstance(n, ast.FunctionDef)}
+    for name in ('__init__', 'add') + MV_READERS:
+        if name not in fns:
+            raise Unknown('MultiView.%s not found' % name)
+    extra = set(fns) - set(('__init__', 'add') + MV_READERS)
+    if extra:
+        raise Unknown('MultiView has further methods: %s' % sorted(extra))
+    for st in cls.body:
+        if not isinstance(st, ast.FunctionDef) and not (isinstance(st, ast.Expr) and isinstance(st.value, ast.Constant)):
+            raise Unknown('class-level statement in MultiView: %s' % u(st)[:60])
+
+    def self_attrs(fn):
+        out = []
+        for n in ast.walk(fn):
+            if isinstance(n, ast.Attribute) and isinstance(n.value, ast.Name) and n.value.id == 'self':
+                out.append(n)
+        return out
+    created = set()
+    for st in _strip_doc(fns['__init__'].body):
+        if isinstance(st, ast.Assign) and len(st.targets) == 1 and isinstance(st.targets[0], ast.Attribute) \
+                and u(st.targets[0].value) == 'self':
+            created.add(st.targets[0].attr)
+        else:
+            raise Unknown('MultiView.__init__: %s' % u(st)[:60])
+    if created != MV_STATE:
+        raise Unknown('MultiView.__init__ creates %s' % sorted(created))
+    for a in self_attrs(fns['add']):
+        if a.attr not in MV_STATE:
+            raise Unknown('MultiView.add uses self.%s' % a.attr)
+    for name in MV_READERS:
+        fn = fns[name]
+        parents = {}
+        for n in ast.walk(fn):
+            for ch in ast.iter_child_nodes(n):
+                parents[id(ch)] = n
+        for n in ast.walk(fn):
+            if isinstance(n, ast.Name) and n.id == 'self':
+                par = parents.get(id(n))
+                if isinstance(n.ctx, ast.Store) or not isinstance(par, ast.Attribute):
+                    raise Unknown('MultiView.%s passes self on or rebinds it (line %d)' % (name, n.lineno))
+            if isinstance(n, (ast.Global, ast.Nonlocal)):
+                raise Unknown('MultiView.%s declares global/nonlocal state' % name)
+        for a in self_attrs(fn):
+            if not isinstance(a.ctx, ast.Load):
+                raise Unknown('MultiView.%s stores to self.%s (line %d)' % (name, a.attr, a.lineno))
+            if a.attr not in MV_STATE and a.attr not in MV_METHODS:
+                raise Unknown('MultiView.%s uses self.%s (line %d)' % (name, a.attr, a.lineno))
+            par = parents.get(id(a))
+            if a.attr in MV_STATE:
+                if isinstance(par, ast.Attribute):
+                    raise Unknown('MultiView.%s calls or reads self.%s.%s (line %d)' % (name, a.attr, par.attr, a.lineno))
+                if isinstance(par, ast.Subscript) and not isinstance(par.ctx, ast.Load):
+                    raise Unknown('MultiView.%s stores into self.%s[...] (line %d)' % (name, a.attr, a.lineno))
+                if isinstance(par, (ast.AugAssign, ast.Delete)):
+                    raise Unknown('MultiView.%s modifies self.%s (line %d)' % (name, a.attr, a.lineno))
+    return True
